@@ -2877,6 +2877,17 @@ def check_exception_name_roundtrip(ck, R):
             """the groups whose text flows into one of these expressions (a group is designated by its number / name)"""
             out = set()
 
+            def all_groups(v, at_, depth=0):
+                """`m.groups()`, or a local that stands for it (and otherwise for nothing: None)"""
+                if isinstance(v, ast.Call) and A.call_attr(v) == "groups" and not v.args:
+                    return True
+                if isinstance(v, ast.Name) and depth < 4 and at_ is not None and at_ >= 0:
+                    vals = [d.value for d in tx.df.reaching(at_, v.id)]
+                    nodes_ = [d.node for d in tx.df.reaching(at_, v.id)]
+                    hits = [all_groups(v2, n2, depth + 1) for (v2, n2) in zip(vals, nodes_) if not (v2 is None or A.is_none(v2))]
+                    return bool(hits) and all(hits)
+                return False
+
             def unpacked(x, at_, depth=0):
                 """`language, module, name = m.groups()`: the i-th name stands for group i+1"""
                 if depth > 6:
@@ -2884,7 +2895,7 @@ def check_exception_name_roundtrip(ck, R):
                 for nm_ in [y for y in ast.walk(x) if isinstance(y, ast.Name) and isinstance(y.ctx, ast.Load) and tx.df.is_local(y.id)]:
                     for d in tx.df.reaching(at_, nm_.id):
                         st_ = getattr(d, "stmt", None)
-                        if d.kind == "unpack" and isinstance(st_, ast.Assign) and isinstance(st_.value, ast.Call) and A.call_attr(st_.value) == "groups":
+                        if d.kind == "unpack" and isinstance(st_, ast.Assign) and all_groups(st_.value, d.node):
                             for t in st_.targets:
                                 if isinstance(t, (ast.Tuple, ast.List)):
                                     for i_, el in enumerate(t.elts):
